@@ -731,8 +731,9 @@ class VizierServicer(vizier_service_pb2_grpc.VizierServiceServicer):
 
     1. We check if there already exists an operation. If not, create it. But if
     it already exists:
-      a. If it's still ACTIVE (i.e. early stopping is still being computed by
-      Pythia), just return it.
+      a. If it's still ACTIVE, it was abandoned by a server that died while
+      computing it (calls are serialized and always finish their operation):
+      recompute it like in c.
       b. If it's done and the call is very recent, just return it.
       c. If it's been a long time, we can recycle the operation, and remark it
       as ACTIVE to be used again.
@@ -802,14 +803,18 @@ class VizierServicer(vizier_service_pb2_grpc.VizierServiceServicer):
         output_operation.creation_time.CopyFrom(_get_current_time())
         self.datastore.create_early_stopping_operation(output_operation)
       else:
+        # Calls are serialized by the lock above and always finish their
+        # operation before releasing it, so an operation that is still ACTIVE
+        # here was abandoned by a server that died half-way: it is recomputed
+        # like a stale one, instead of answering every later check forever.
         if (
             output_operation.status
-            == vizier_oss_pb2.EarlyStoppingOperation.Status.ACTIVE
-            or datetime.datetime.utcnow()
+            != vizier_oss_pb2.EarlyStoppingOperation.Status.ACTIVE
+            and datetime.datetime.utcnow()
             - output_operation.completion_time.ToDatetime()
             < self._early_stop_recycle_period
         ):
-          # Operation is already active or very recent. Just return it.
+          # Operation is very recent. Just return it.
           return vizier_service_pb2.CheckTrialEarlyStoppingStateResponse(
               should_stop=output_operation.should_stop
           )
